@@ -853,6 +853,12 @@ def frontend_NewWitness(ex, st, args, ctx):
     tid = deref_type(ex, asg.t)
     val = ex.load(st, asg.v)
     names = struct_fields(ex, tid)
+    for v in val.f:
+        if isinstance(v, Slice):
+            touch(ex, st, v, 'r', ctx['pos'])
+            for c in ex.cells(st, v)[:8]:
+                if isinstance(c, Slice):
+                    touch(ex, st, c, 'r', ctx['pos'])
     fields = {n: snapshot(ex, st, v) for n, v in zip(names, val.f)}
     w = Opaque('witness', tid=tid, tname=ex.tname(tid), fields=fields, public_only=public_only)
     st.events.append(('NewWitness', w))
@@ -1597,6 +1603,7 @@ BASE.update({'chan:select': chan_select})
 # ------------------------------------------------------------------------------------------ C13: shared-state footprint of one invocation
 def i_begin_invocation(ex, st, args, ctx):
     st.epoch = st.nobj + 1
+    st.track_all = True
     st.events.append(('invocation-begin',))
     return None
 
@@ -1658,6 +1665,8 @@ def touch(ex, st, v, kind, pos):
         o = v.obj
     if o is not None and st.obj_epoch.get(o, 0) < st.epoch:
         st.events.append(('shared_write' if kind == 'w' else 'shared_read', o, (), pos))
+    elif o is not None and st.track_all:
+        st.events.append(('priv_write' if kind == 'w' else 'priv_read', o, (), pos))
 
 
 def buffer_ReadFrom(ex, st, args, ctx):
